@@ -7,3 +7,5 @@ LEVEL = "partial"
 def run(chk, replay=None):
     chk.prove()
     k1.run_unit(chk, io.EpollRemoteQueue())
+    k1.run_unit(chk, io.EpollIoCancel(0))
+    k1.run_unit(chk, io.EpollIoCancel(1))
